@@ -179,6 +179,8 @@ class Tracer:
                     raise
                 finally:
                     tr.depth -= 1
+                # the temp file's name, so that the parent recognises it wherever it was made
+                tr.emit({'k': 'temp', 'p': f.name})
                 tr.point('write', f.name)
                 return f
             return real_ntf(*a, **kw)
@@ -194,10 +196,12 @@ class Tracer:
 # path abstraction (parent side)
 
 
-def classify(path: str, user_dir: str, tmp_dir: str, layout: str):
+def classify(path: str, user_dir: str, tmp_dir: str, layout: str, temps=()):
     """-> (folder name | None, kind).  kind: 'DIR', 'DIR/cur', 'cur/msg', 'uidlist',
     'uidlist.lock', 'subscriptions', 'TEMP', 'etc', ..."""
     p = os.path.realpath(path) if os.path.isabs(path) else path
+    if path in temps or p in temps:
+        return None, 'TEMP'          # made by NamedTemporaryFile (whatever the directory)
     base = os.path.dirname(user_dir)
     if p == tmp_dir or (p.startswith(tmp_dir + os.sep) and not p.startswith(user_dir + os.sep)
                         and os.path.dirname(p) == tmp_dir):
@@ -236,9 +240,11 @@ def classify(path: str, user_dir: str, tmp_dir: str, layout: str):
     return folder, tail
 
 
-def op_label(op: dict, user_dir: str, tmp_dir: str, layout: str) -> tuple[str, list]:
-    cls = [classify(p, user_dir, tmp_dir, layout) for p in op.get('p', [])]
+def op_label(op: dict, user_dir: str, tmp_dir: str, layout: str, temps=()) -> tuple[str, list]:
+    cls = [classify(p, user_dir, tmp_dir, layout, temps) for p in op.get('p', [])]
     name = op['op']
+    if name == 'mktemp':
+        return 'mktemp(TEMPDIR)', [None]     # where it is made shows in the rename that follows
     if not cls:
         return name, []
     folders = [c[0] for c in cls]
@@ -782,6 +788,7 @@ class Abstraction:
         self.user_dir = os.path.realpath(user_dir)
         self.tmp_dir = os.path.realpath(tmp_dir)
         self.vals: list = []
+        self.temps: set = set()
         self.contents = {}
         for i in list(range(1, 16)) + list(range(900, 930)):
             self.contents[norm_content(message_body(i, nonce))] = i
@@ -801,14 +808,21 @@ class Abstraction:
             return 0                 # hollow: header-less, body-less
         return 999                   # something else
 
+    def note_log(self, log: list) -> None:
+        for rec in log:
+            if rec.get('k') == 'temp':
+                self.temps.add(rec['p'])
+                self.temps.add(os.path.realpath(rec['p']))
+
     def label(self, op: dict) -> str:
-        return op_label(op, self.user_dir, self.tmp_dir, self.cfg.layout)[0]
+        return op_label(op, self.user_dir, self.tmp_dir, self.cfg.layout, self.temps)[0]
 
     def events(self, log: list, dump: dict | None, aged: list, ctl: list, k,
                dump_log: list | None = None, halfmade: list | None = None) -> tuple[list, dict]:
         ev: list = []
         info = {'acks': 0, 'inflight': None, 'killed_before': None, 'after': None,
                 'exdev': False, 'bye_in_history': 0}
+        self.note_log(log)
         cmds = split_commands(log)
         for cmd in cmds:
             cond, resps = tagged(cmd)
@@ -1050,6 +1064,7 @@ def run_job(job: dict) -> dict:
             st = fork_call(child_run, cfg, rd, tmp_root, history, k, log_path, nonce, virgin)
             res['run_wall'] += time.time() - t0
             log = read_log(log_path)
+            ab.note_log(log)
             if k is None and st != 0:
                 res['machinery'].append(f'clean run of history {job["hid"]} exited {st}: '
                                         + str([r for r in log if r.get('k') == 'harness-exc'])[:600])
